@@ -23,6 +23,20 @@ def group_server_cases(cases):
             out.append(dict(dev=c["dev"], steps=steps))
         else:
             by_prefix.setdefault(key, dict(dev=c["dev"], steps=list(prefix)))["steps"].append(last)
+    # A negotiation call may leave the model in a state that a shorter history reaches as well (SET_FEATURES acknowledging nothing
+    # looks like a fresh connection): transition coverage then never probes the requests *after* that call.  Every session that
+    # ends with a negotiation call is therefore followed by one valid instance of every other request code (twice where the
+    # payload is drawn at random, e.g. the enable / disable value of SET_VRING_ENABLE); the trace specification derives what
+    # each must do from the state the session is in.
+    probes = {}
+    for c in cases:
+        last = c["steps"][-1]
+        if last["c"] not in (1, 2, 16) and last.get("var", "valid") == "valid" and last.get("h", "ok") == "ok" and not last.get("nr"):
+            probes.setdefault(last["c"], last)
+    tail = [probes[k] for k in sorted(probes)]
+    tail = tail + [p for p in tail if p["c"] in (8, 10, 11, 18)] * 2
+    for o in out:
+        o["steps"] = o["steps"] + tail
     out.extend(by_prefix.values())
     return out
 
